@@ -232,13 +232,16 @@ pub(crate) fn handle_submit(
     );
     senders.autoalloc.on_job_submit(job_id);
 
-    let job_detail = state
-        .get_job(job_id)
-        .unwrap()
-        .make_job_detail(Some(&TaskSelector {
-            id_selector: TaskIdSelector::All,
-            status_selector: TaskStatusSelector::All,
-        }));
+    let job = state.get_job_mut(job_id).unwrap();
+    if new_job && job.n_tasks() == 0 {
+        // A (closed) job without tasks is terminated from the very beginning.
+        // No task event will ever trigger the check of termination, so do it now.
+        job.check_termination(senders, Utc::now());
+    }
+    let job_detail = job.make_job_detail(Some(&TaskSelector {
+        id_selector: TaskIdSelector::All,
+        status_selector: TaskStatusSelector::All,
+    }));
     drop(state);
 
     senders.server_control.add_new_tasks(new_tasks).unwrap();
